@@ -43,7 +43,7 @@ def run(ctx):
     n, _ = vf.validate_runs(ctx, "LiveTrace", trace, keyfn=lambda run, evt: "live:%s:%s" % (evt.get("ev"), evt.get("what", "")), label="live generator")
     ctx.count(0, [("run", i) for i in range(n)])
     # socket-level tier: `sx arp --live` on the wire until Ctrl-C: passes, rescan gap, de-duplicated output
-    n3, rej = wt.run_wire(ctx, select=lambda s: s["name"] == "arp-live", label="c19w", focus="live")
+    n3, rej = wt.run_wire(ctx, select=lambda s: s["name"].startswith("arp-live"), label="c19w", focus="live")
     wt.report(ctx, "C19", rej)
     for r0 in vf.split_runs(events)[:3]:
         ctx.sample(r0[:40])
